@@ -381,6 +381,9 @@ func init() {
 	add("C14", ruleR14_10)
 	add("C01", ruleR14_10)
 	add("C05", ruleR06_4)
+	add("C03", ruleR03_18, ruleR03_19)
+	add("C01", ruleR03_19)
+	add("C14", ruleR03_18, ruleR03_19)
 	add("C15", ruleR15_8)
 	add("C12", ruleR06_1full) // "all log invariants hold" under overlapping requests: the numbering of the accepted operations
 	add("C20", ruleR12_3)     // a realtime client's overlapping push-pulls are told apart by the server's per-datatype lock alone
